@@ -364,12 +364,24 @@ func (index *uniqueIndex) ProcessBeforeDelete(ctx *IndexingContext) {
 	}
 }
 
+// nextAfter moves the cursor to the first entry behind key and returns it. Unlike cursor.Next() it does not depend on
+// where the cursor stands, so the integrity checks can use it to step on after they deleted the entry at key through the
+// cursor: a Next() after a Delete() skips the following entry if the bucket was already written to earlier in the
+// transaction (see TestCursorDeleteBuggy), and that entry would be neither checked nor repaired
+func nextAfter(cursor *bbolt.Cursor, key []byte) ([]byte, []byte) {
+	nextKey, nextVal := cursor.Seek(key)
+	if nextKey != nil && bytes.Equal(nextKey, key) {
+		return cursor.Next()
+	}
+	return nextKey, nextVal
+}
+
 func (index *uniqueIndex) CheckIntegrity(ctx MutateContext, fix bool, errorSink func(error, bool)) error {
 	tx := ctx.Tx()
 	indexBucket := index.getIndexBucket(tx)
 	cursor := indexBucket.Cursor()
 	store := index.symbol.GetStore()
-	for key, val := cursor.First(); key != nil; key, val = cursor.Next() {
+	for key, val := cursor.First(); key != nil; key, val = nextAfter(cursor, key) {
 		if !store.IsEntityPresent(tx, string(val)) {
 			if fix {
 				if err := cursor.Delete(); err != nil {
@@ -614,12 +626,12 @@ func (index *setIndex) CheckIntegrity(ctx MutateContext, fix bool, errorSink fun
 	if indexBaseBucket := Path(tx, index.indexPath...); indexBaseBucket != nil {
 		var toDelete []string
 		cursor := indexBaseBucket.Cursor()
-		for key, _ := cursor.First(); key != nil; key, _ = cursor.Next() {
+		for key, _ := cursor.First(); key != nil; key, _ = nextAfter(cursor, key) {
 			hadRefs := false
 			if indexBucket := indexBaseBucket.Bucket.Bucket(key); indexBucket != nil {
 				idsCursor := indexBucket.Cursor()
 				referenceCount := 0
-				for val, _ := idsCursor.First(); val != nil; val, _ = idsCursor.Next() {
+				for val, _ := idsCursor.First(); val != nil; val, _ = nextAfter(idsCursor, val) {
 					hadRefs = true
 					referenceCount++
 					_, id := GetTypeAndValue(val)
@@ -804,7 +816,7 @@ func (index *fkIndex) CheckIntegrity(ctx MutateContext, fix bool, errorSink func
 			continue
 		}
 		fkCursor := setBucket.Cursor()
-		for val, _ := fkCursor.First(); val != nil; val, _ = fkCursor.Next() {
+		for val, _ := fkCursor.First(); val != nil; val, _ = nextAfter(fkCursor, val) {
 			_, fkId := GetTypeAndValue(val)
 			if !index.symbol.GetStore().IsEntityPresent(tx, string(fkId)) {
 				if fix {
